@@ -250,6 +250,7 @@ func init() {
 			ID: "C12",
 			Runs: []Run{
 				{Harness: "zzverif/zzh.ZZC12Gofmt", Desc: "two writes that an unformatted source keeps on one physical line (if/else on one line; two statements separated by ';') are reported as often as after gofmt has split the lines", Bounds: map[string]interface{}{"holes": 1}},
+				{Harness: "zzverif/zzh.ZZC12TrailingNote", Desc: "an ordinary comment added behind a closing brace (of a composite literal in a var group; of an if block) whose last inner line is a stand-alone @ignore marker or an ordinary comment: the same number of diagnostics on each of four tagged lines with and without the remark; type annotation over 3 spellings, marker over 4", Bounds: map[string]interface{}{"programs": 2, "annotation_spellings": 3, "marker_spellings": 4}},
 				{Harness: "zzverif/zzh.ZZC12Layout", Desc: "the same six declarations (annotated type, constructor, user function, package-level initialiser, method with receiver overwrite and a shadowing local, @testonly function) in five layouts: canonical, reversed order, split over two files with blank lines / line and block comments inserted, files in another order, locals and receiver consistently renamed; annotations symbolic; 10 statement tags x 4 codes compared", Bounds: map[string]interface{}{"layouts": 7, "holes": 3, "statement_tags": 10}},
 				{Harness: "zzverif/zzh.ZZC12GroupDoc", Desc: "an annotated type ( ... ) group whose second member gets an ordinary comment, a keyword-mentioning comment, its own annotation or nothing above it: the writes to both members keep their verdicts", Bounds: map[string]interface{}{"holes": 2}},
 				{Harness: "zzverif/zzh.ZZC02Local", Desc: "consistent renaming of a local: a local function value named new vs the same function named mk, both called with a *T: same (empty) verdict", Bounds: map[string]interface{}{"skeleton": "c02SrcLocal"}},
